@@ -48,8 +48,8 @@ func newInstance(kind string, n int) *instance {
 	case "hosts":
 		in.hosts = mux.NewHosts(false)
 	case "group":
-		in.g = mux.NewGroup[*Comp](in.env.Call, in.env.Group404(idG404), in.env.NotAllowedBuilder(id405), in.env.OptionsBuilder(idOptions))
-		in.r = in.g.New(name, nil)
+		in.g = mux.NewGroup[*Comp](in.env.Call, in.env.Group404(idG404), in.env.NotAllowedBuilder(id405), in.env.OptionsBuilder(idOptions), optBase...)
+		in.r = in.g.New(name, nil, mux.WithURLDomain("https://"+name+".example"))
 	}
 	return in
 }
@@ -226,10 +226,22 @@ func genC07(r *Rng, idx int, tier string) *World {
 	return w
 }
 
+// optBase is the caller-side option buffer of variant d: one backing array with
+// spare capacity that the test program uses for all its option lists
+// ("base options + extra" idiom).  A callee that appends to a caller's slice
+// instead of copying it writes into this array.
+var optBase = func() []mux.Option {
+	b := make([]mux.Option, 1, 8)
+	b[0] = mux.WithURLDomain("https://base.example")
+	return b
+}()
+
 // observeStar builds R* from the recipe and renders a fixed observation log.
-func observeStar(w *World) []string {
+// starOpts was built (from optBase) before any prior activity ran.
+func observeStar(w *World, starOpts []mux.Option) []string {
 	env := NewEnv()
-	r := NewSimRouter(env, w.Opts)
+	name := w.Opts.Name
+	r := mux.NewRouter[*Comp](name, env.Call, env.NotFound(id404), env.NotAllowedBuilder(id405), env.OptionsBuilder(idOptions), append(w.Opts.muxOptions(env), starOpts...)...)
 	var lines []string
 	// first observation before anything is registered
 	o := Serve(r, Req{Method: "OPTIONS", Path: "*"}, nil, nil)
@@ -261,7 +273,7 @@ func soloMain() {
 		fatal(2, "solo: %v", err)
 	}
 	simrt.SetPoolCfg(w.Pool)
-	b, _ := json.Marshal(observeStar(&w))
+	b, _ := json.Marshal(observeStar(&w, append(optBase, mux.WithURLDomain("https://star.example"))))
 	os.Stdout.Write(b)
 }
 
@@ -375,14 +387,16 @@ func execC07(w *World, st *Stats) (*Violation, RunInfo) {
 		}
 		return nil, info
 	default: // d
-		// prior activity of unrelated instances, sequentially, then R*
+		// the caller prepares R*'s option list first (base + extra on the shared buffer) ...
+		starOpts := append(optBase, mux.WithURLDomain("https://star.example"))
+		// ... then unrelated instances are built and used, sequentially, then R* is built
 		for t := range w.Tasks {
 			in := newInstance(kinds[t], t)
 			for i := range w.Tasks[t] {
 				in.do(&w.Tasks[t][i])
 			}
 		}
-		after := observeStar(w)
+		after := observeStar(w, starOpts)
 		self, err := os.Executable()
 		if err != nil {
 			fatal(2, "%v", err)
